@@ -840,9 +840,17 @@ Extra:\n{self.extra_map}
                     )
 
                 bip32_derivs = []
+                xfps_seen = set()
                 for named_pub in psbt_out.named_pubs.values():
                     # Match to corresponding xpub to validate that this xpub is a participant in this change output
                     xfp = named_pub.root_fingerprint.hex()
+
+                    # each cosigner has to contribute exactly one key to the change script
+                    if xfp in xfps_seen:
+                        raise SuspiciousTransaction(
+                            f"Root fingerprint {xfp} has more than one key in output #{cnt}"
+                        )
+                    xfps_seen.add(xfp)
 
                     try:
                         hdpub = hdpubkey_map[xfp]
